@@ -2,14 +2,16 @@
 
 Engine S: 1-3 virtual threads call one shared MonotonicTimestampGenerator; every clock reading is
 a data choice from a small domain (standing still, going backwards, jumping far ahead, falling
-more than the warning threshold behind, moving by fractions of a microsecond), every source line
-of the generator is a scheduling point (so is every re-acquisition of its lock); all executions
-with at most `bound` preemptions are enumerated.
+more than the warning threshold behind, moving by fractions of a microsecond, sitting at and around
+0 us and below), every source line of cassandra/timestamps.py is a scheduling point (so is every
+acquisition of a lock, wherever the module creates it); all executions with at most `bound`
+preemptions are enumerated.  The generator is new in every execution: its first use is raced.
 
 The clock is what the driver really reads: a float number of seconds.  The oracle converts a
 reading to whole microseconds exactly (fractions.Fraction), not with the driver's arithmetic.
 """
 import logging
+import threading as _real_threading
 from fractions import Fraction
 
 from vt import sched, vthreading
@@ -22,26 +24,96 @@ META = {
     'level': 'model_checking',
     'engine': 'S',
     'technique': 'stateless schedule exploration (preemption-bounded, line-granular) x exhaustive clock-reading scripts on the real generator',
-    'text': 'All executions of a shared default MonotonicTimestampGenerator called by 2 threads x 2 calls (quick: preemption bound 2 for '
-            'the whole-microsecond domain, 1 for the others; thorough: bound 2-3, also 3 threads with bound 1-3) and by a single thread x 3-4 calls '
-            '(thorough: 4-5), with every clock-reading sequence chosen per call from: whole microseconds {10,11,12} us (standing still / '
-            'stepping back); {10,1500000,3000000} us (jump far ahead, then fall back by more than the 1 s warning threshold with the '
+    'text': 'All executions of a shared default MonotonicTimestampGenerator, created fresh for every execution (so the first use of '
+            'the generator is always raced by the threads), called by 2 threads x 2 calls (quick: preemption bound 2 for the two '
+            'whole-microsecond domains, 1 for the others; thorough: bound 2-3, also 3 threads with bound 1-3), by 2 threads x 1 call '
+            '(first use only; bound 3, thorough 4) and by a single thread x 3-4 calls (thorough: 4-5), with every clock-reading '
+            'sequence chosen per call (every value in every position) from: whole microseconds {10,11,12} us (standing still / '
+            'stepping back); around the epoch {-1,0,1} us for 2 threads and {-2,-1,0,1,2} us for 1 thread x 4 calls (0 is the '
+            'generator\'s initial `last` and also a legitimate reading and returned value; negative readings, readings at and '
+            'crossing zero in any order), and the float seconds {-1e-6,-5e-7,0.0,5e-7,1e-6} (1 thread x 4 calls); first use with '
+            '{0,10,11} us; {10,1500000,3000000} us (jump far ahead, then fall back by more than the 1 s warning threshold with the '
             'warning interval elapsed: the "Clock skew detected" branch is taken, and also its rate-limited and below-threshold '
             'variants; the number of executions that emitted the warning is counted and must be > 0; 2 threads and 1 thread x 4 '
             'calls); float seconds with sub-microsecond parts and inexact float products {16.0, 16.0000005, 16.000001, 16.0000015, '
             '16.000002} s (1 thread x 4 calls; the first three values for 2 threads) and the 9 consecutive representable readings '
-            'from 1.7e9 s upward (spacing 2^-22 s, about 0.24 us; 1 thread x 3 calls).  Scheduling points at the lock (every '
-            'acquisition, also a re-acquisition inside a call) and at every source line of __call__, _next_timestamp and _maybe_warn.  '
+            'from 1.7e9 s upward (spacing 2^-22 s, about 0.24 us; 1 thread x 3 calls).  Scheduling points at every lock operation '
+            '(every acquisition, also a re-acquisition inside a call) and at every source line of cassandra/timestamps.py that a '
+            'thread executes (whole file, not a list of functions: properties and helpers around the lock are preemptible too).  '
             'Oracle: all returned values are distinct ints, each >= the exact floor in microseconds of the float reading taken for '
             'that call, each thread\'s values increasing, and a call that starts after another returned gets a larger value.',
-    'note': 'threading.Lock in cassandra.timestamps is replaced by the scheduler-aware VLock; preemption granularity is the '
-            'source line (CPython hands the GIL over between bytecodes; a read-modify-write within one line is not split).',
+    'note': 'Every lock of cassandra.timestamps is the scheduler-aware one wherever it is created: the names Lock/RLock/Condition/Event '
+            'and a `threading` module reference in the module are replaced for the whole execution (locks made in __init__ or '
+            'lazily on first use), lock objects made at import and kept in a module global or class attribute get a fresh virtual '
+            'lock per execution; a real threading primitive found on the generator, its class or the module after an execution is a '
+            'harness error.  Preemption granularity is the source line (CPython hands the GIL over between bytecodes; a '
+            'read-modify-write within one line is not split).',
     'design_ref': 'C31',
 }
 
-FOCUS = [ts.MonotonicTimestampGenerator.__call__.__code__,
-         ts.MonotonicTimestampGenerator._next_timestamp.__code__,
-         ts.MonotonicTimestampGenerator._maybe_warn.__code__]
+# every source line of the module that a virtual thread executes is a scheduling point (also code around the
+# lock that is not one of today's three methods: properties, helpers, module-level functions)
+FOCUS_FILES = (ts.__file__,)
+for _f in ('__call__', '_next_timestamp', '_maybe_warn'):
+    if getattr(ts.MonotonicTimestampGenerator, _f).__code__.co_filename != ts.__file__:
+        raise HarnessError('cassandra.timestamps: %s is not compiled from %r' % (_f, ts.__file__))
+
+VIRTUAL = {'Lock': vthreading.VLock, 'RLock': vthreading.VRLock, 'Condition': vthreading.VCondition,
+           'Event': vthreading.VEvent}
+_REAL_LOCK, _REAL_RLOCK = type(_real_threading.Lock()), type(_real_threading.RLock())
+_REAL_PRIMS = (_REAL_LOCK, _REAL_RLOCK, _real_threading.Condition, _real_threading.Event, _real_threading.Semaphore)
+
+
+class VThreadingModule(object):
+    """Stands in for a `threading` module reference held by cassandra.timestamps: the blocking primitives are
+    the virtual ones, everything else is the real module's."""
+    def __init__(self, real):
+        self._real = real
+        for name, v in VIRTUAL.items():
+            setattr(self, name, v)
+
+    def __getattr__(self, name):
+        return getattr(self._real, name)
+
+
+def _owners():
+    """The module and the classes it defines: the namespaces in which it can keep a lock made at import."""
+    return [ts] + [v for v in vars(ts).values() if isinstance(v, type) and v.__module__ == ts.__name__]
+
+
+def virtualise_locks():
+    """Make every lock the module can get hold of a scheduler-aware one, wherever it creates it: the constructors
+    it calls at run time (`Lock` etc. imported by name, or through a `threading` module reference: in __init__
+    or lazily at any later point) and lock objects it made at import and keeps in a module global or class
+    attribute (those get a fresh virtual lock per execution).  Returns the list to undo."""
+    undo = []
+
+    def put(owner, name, value):
+        undo.append((owner, name, vars(owner)[name]))
+        setattr(owner, name, value)
+    for name, v in VIRTUAL.items():
+        if vars(ts).get(name) is getattr(_real_threading, name):
+            put(ts, name, v)
+    for name, v in list(vars(ts).items()):
+        if v is _real_threading:
+            put(ts, name, VThreadingModule(v))
+    for owner in _owners():
+        for name, v in list(vars(owner).items()):
+            if type(v) is _REAL_LOCK:
+                put(owner, name, vthreading.VLock())
+            elif type(v) is _REAL_RLOCK:
+                put(owner, name, vthreading.VRLock())
+    return undo
+
+
+def real_primitives(gen):
+    """Names of real (not scheduler-aware) blocking primitives the generator, its class or the module hold."""
+    found = []
+    for owner in _owners() + [gen]:
+        for name, v in list(getattr(owner, '__dict__', {}).items()):
+            if isinstance(v, _REAL_PRIMS):
+                found.append('%s.%s' % (getattr(owner, '__name__', type(owner).__name__), name))
+    return found
 
 
 def exact_us(t):
@@ -95,10 +167,10 @@ class SkewCounter(logging.Handler):
 
 
 def harness(params, prefix, part):
-    s = sched.Scheduler(prefix, focus=FOCUS, horizon=5000)
+    s = sched.Scheduler(prefix, focus_files=FOCUS_FILES, horizon=5000)
     readings, results, spans = {}, {}, []
-    orig_time, orig_lock = ts.time, ts.Lock
-    ts.Lock = vthreading.VLock
+    orig_time = ts.time
+    undo = virtualise_locks()
     ts.time = Clock(s, clock_values(params), readings)
     skew = SkewCounter()
     lg = logging.getLogger(ts.__name__)
@@ -120,11 +192,16 @@ def harness(params, prefix, part):
         for i, n in enumerate(params['calls']):
             s.spawn(worker(n), 't%d' % i)
         s.run(watchdog=WATCHDOG)
+        real = real_primitives(gen)
     finally:
-        ts.time, ts.Lock = orig_time, orig_lock
+        ts.time = orig_time
+        for owner, name, value in reversed(undo):
+            setattr(owner, name, value)
         lg.removeHandler(skew)
         lg.setLevel(orig_log[0])
         lg.propagate, lg.disabled = orig_log[1], orig_log[2]
+    if real:
+        raise HarnessError('cassandra.timestamps holds a real threading primitive the scheduler cannot see: %s' % ', '.join(real))
     data = {'params': params, 'prefix': s.choices()}
     if s.failure:
         part.violation('C31/%s' % s.failure[0], s.failure[1], data)
@@ -167,6 +244,9 @@ def harness(params, prefix, part):
 
 
 FRAC = [16.0, 16.0000005, 16.000001, 16.0000015, 16.000002]
+# around the epoch: 0 is both the generator's initial `last` and a legitimate reading / returned timestamp
+ZERO = [-2, -1, 0, 1, 2]
+ZERO_FRAC = [-0.000001, -0.0000005, 0.0, 0.0000005, 0.000001]
 
 
 def run(ctx):
@@ -176,11 +256,16 @@ def run(ctx):
             ('1x%d-frac' % (5 if T else 4), {'calls': [5 if T else 4], 'unit': 's', 'domain': FRAC}, 0),
             ('1x%d-epoch' % (4 if T else 3), {'calls': [4 if T else 3], 'unit': 'epoch-ulp', 'domain': list(range(9))}, 0),
             ('1x4-drift', {'calls': [4], 'domain': [10, 1500000, 3000000]}, 0),
-            ('2x2-frac', {'calls': [2, 2], 'unit': 's', 'domain': FRAC[:3]}, 2 if T else 1)]
+            ('2x2-frac', {'calls': [2, 2], 'unit': 's', 'domain': FRAC[:3]}, 2 if T else 1),
+            ('1x%d-zero' % (5 if T else 4), {'calls': [5 if T else 4], 'domain': ZERO}, 0),
+            ('1x4-zero-frac', {'calls': [4], 'unit': 's', 'domain': ZERO_FRAC}, 0),
+            ('2x2-zero', {'calls': [2, 2], 'domain': ZERO[1:4]}, 2),
+            ('2x1-first-use', {'calls': [1, 1], 'domain': [0, 10, 11]}, 4 if T else 3)]
     if T:
         cfgs += [('3x1', {'calls': [1, 1, 1], 'domain': [10, 11, 12]}, 3),
                  ('3-211', {'calls': [2, 1, 1], 'domain': [10, 12]}, 2),
-                 ('3-211-drift', {'calls': [2, 1, 1], 'domain': [1500000, 3000000]}, 1)]
+                 ('3-211-drift', {'calls': [2, 1, 1], 'domain': [1500000, 3000000]}, 1),
+                 ('3x1-zero', {'calls': [1, 1, 1], 'domain': ZERO[1:4]}, 3)]
     for name, params, bound in cfgs:
         before = ctx.counters.get('skew_warning_executions', 0)
         sched.explore(ctx, 'c31-' + name, harness, params, bound)
